@@ -102,6 +102,7 @@ def globalsObj : Val := .obj "DictPile" []
 def glob : String → Option Val
   | "H" => some (fn "H")
   | "R" => some (fn "R")
+  | "RQ" => some (fn "RQ")
   | "C" => some (fn "C")
   | "T" => some (fn "T")
   | "CM" => some (cls "CM")
@@ -111,6 +112,7 @@ def glob : String → Option Val
   | "K2" => some (.int 32)
   | "O" => some (.obj "Obj" [])
   | "Boom" => some (cls "Boom")
+  | "Quit" => some (cls "Quit")          -- a BaseException that is not an Exception
   | "Exception" => some (cls "Exception")
   | "BaseException" => some (cls "BaseException")
   | "ValueError" => some (cls "ValueError")
@@ -145,6 +147,8 @@ def call (f : Val) (args : List Val) (w : World) : Res Val × World :=
     (.ok (.int (hValue k rest)), { w with log := w.log ++ [.tuple [.str "H", .int k, .tuple (plainL rest)]] })
   | .obj "function" [.str "R"], [.int k] =>
     (.err (exc "Boom" [.int k]), { w with log := w.log ++ [.tuple [.str "R", .int k]] })
+  | .obj "function" [.str "RQ"], [.int k] =>
+    (.err (exc "Quit" [.int k]), { w with log := w.log ++ [.tuple [.str "RQ", .int k]] })
   | .obj "function" [.str "C"], [.int k] =>
     let v := w.script.head?.getD false
     (.ok (.bool v), { w with log := w.log ++ [.tuple [.str "C", .int k, .bool v]], script := w.script.tail })
